@@ -112,7 +112,7 @@ def session(chk):
         b = [v for t, v in r.prints if t == "SESSION"]
         beh += b if not chk.quick else random.Random(chk.seed).sample(b, min(len(b), 1500))
     for cfg in ("Sim_Session_iscsi.cfg", "Sim_Session_sgio.cfg"):
-        rs = tlc.run("Session", cfg, workers=1, timeout=900, name="c13sim", simulate="num=%d" % (80 if chk.quick else 6000),
+        rs = tlc.run("Session", cfg, workers=1, timeout=900, name="c13sim", simulate="num=%d" % (80 if chk.quick else 20000),
                      extra=["-depth", "40", "-seed", str(chk.seed + 13)])
         if rs.violated:
             raise tlc.TLCFailure("Session.tla (simulation) violated %s" % rs.violated)
